@@ -164,6 +164,14 @@ theorem C09_callGuardS_of_encodes (m : Mgr) (ext : Nat → Nat) (h : Good3 m ext
     CallGuardS m ext ⟨s :: sch, .op (.base b)⟩ :=
   callGuardS_of_encodes m ext h h2 b hdec s sch he
 
+/-- the decidable guard of a decorated call is EXACT: replaying the choice read off `sch` records
+`sch` iff `sch` is the record of the choice-driven call under some valid choice -/
+theorem C09_encodes_iff_choice (m : Mgr) (b : UOp) (sch : List SchedItem) :
+    logOf (runOpC (Choice.ofSched sch) b m).1 = some sch ↔
+      ∃ c : Choice, c.Valid ∧ logOf (runOpC c b m).1 = some sch :=
+  ⟨fun h => ⟨_, Choice.ofSched_valid sch, h⟩,
+   fun ⟨c, hc, hl⟩ => runOpC_encodes_of_choice c hc m sch b hl⟩
+
 /-! ### non-vacuity -/
 
 /-- `apply('and', 3, 5)` on `exSchedM` (reordering enabled, a request due) under `Choice.rev`: the
